@@ -290,3 +290,14 @@ Proof.
   destruct (Heach e (or_introl eq_refl)) as (a & b & _ & Ha1 & Ha2 & Ha3 & Hnb & (i & Hi & Hnf)).
   destruct (Hcl i ltac:(lia)) as [Hc|Hc]; [apply (Hnb i Hi Hc) | apply (Hnf Hc)].
 Qed.
+
+(* a pixel value is -1 (off the bitmap) or one of the stored values *)
+Lemma pix_in_rows m x y : pix m x y = -1 \/ In (pix m x y) (concat (rows m)).
+Proof.
+  unfold pix. destruct (inb m x y) eqn:Hin; [right|now left].
+  unfold inb, zlen in Hin.
+  apply andb_true_iff in Hin as [Hin H4]. apply andb_true_iff in Hin as [Hin H3].
+  apply andb_true_iff in Hin as [H1 H2].
+  apply Z.leb_le in H1, H2. apply Z.ltb_lt in H3, H4.
+  apply in_concat. exists (nth (Z.to_nat (y - org_y m)) (rows m) []). split; apply nth_In; lia.
+Qed.
